@@ -86,6 +86,38 @@ func c18(c *core.Ctx) {
 				c.Check(okOps, key+":merge-operands", mg.Pos(), "merge(out, in)", "the merge does not copy from the 'in' parameter into the 'out' parameter")
 			}
 		}
+		// any other place of the cloner code that merges into a destination resets it first, too
+		for _, fn := range append(p.LibFuncs("internal"), p.LibFuncs("inprocgrpc")...) {
+			if fn == copyMsg {
+				continue
+			}
+			for _, mg := range core.CallsIn(fn, func(_ *ssa.Call, ci core.CallInfo) bool { return strings.Contains(ci.Name, "Merge") }) {
+				args := core.Args(&mg.Call)
+				if len(args) < 2 {
+					continue
+				}
+				dst := args[0]
+				okReset := core.MustPass(core.Entry(fn), mg, func(in ssa.Instruction) bool {
+					call, isC := in.(*ssa.Call)
+					if !isC {
+						return false
+					}
+					if call.Call.IsInvoke() {
+						return call.Call.Method.Name() == "Reset" && (call.Call.Value == dst || sameOrigins(call.Call.Value, dst))
+					}
+					ci := core.InfoOf(&call.Call)
+					if ci.Name == "Reset" || ci.Name == "ClearMessage" {
+						for _, a := range core.Args(&call.Call) {
+							if a == dst || sameOrigins(a, dst) {
+								return true
+							}
+						}
+					}
+					return false
+				})
+				c.Check(okReset, core.FuncName(fn)+":reset-before-merge", mg.Pos(), "the destination is reset before it is merged into", "a copy merges into its destination without resetting it first: whatever the destination held and the source does not set (scalars, map entries, repeated values) survives the copy")
+			}
+		}
 		c.EndRule()
 	}
 
